@@ -104,6 +104,8 @@ pub fn alphabet(full: bool) -> Vec<M> {
             M::PWrite("/b", 0, b"XY"),
             M::Create("/a"),
             M::Rename("/d/a", "/a"),
+            M::Rename("/a", "/d"),
+            M::Rename("/d", "/a"),
         ]);
     }
     v
@@ -321,8 +323,19 @@ fn rand_op(r: &mut Rng, sh: &mut Shadow, pool: &[String], with_sync: bool, actor
                 return format!("{a} stat {p}");
             }
             95 => {
-                let p = pick_file(r, sh);
-                return format!("{a} exists {p}");
+                // kind confusion: rename file <-> directory names, mkdir over a file, create over a dir
+                let f = pick_file(r, sh);
+                let d = pick_dir(r, sh);
+                match r.below(5) {
+                    0 => return format!("{a} rename {f} {d}"),
+                    1 => {
+                        if f.starts_with(&format!("{}/", d)) { continue; }
+                        return format!("{a} rename {d} {f}");
+                    }
+                    2 => return format!("{a} mkdir {f}"),
+                    3 => return format!("{a} open {slot} {d} wc"),
+                    _ => return format!("{a} exists {f}"),
+                }
             }
             96 => {
                 let p = pick_file(r, sh);
